@@ -24,6 +24,7 @@ def linkStep (r : Reader) (line : String) : Reader × List String :=
       let rm := if rm == "g" then ReadMode.datagram else .stream
       (Reader.new em rm f, ["ok"])
     | none => (r, ["bad-op"])
+  | ["reset"] => (r.reset, ["ok"])
   | ["feed", hex] =>
     match parseHex hex with
     | some bs =>
